@@ -318,8 +318,8 @@ def parse_statement(line, ctx):
     if not s or s.startswith("//"):
         return None
     s = s.rstrip(";").strip()
-    if s in ("return 0", "return s", "return") or s.startswith("s := make("):
-        return None
+    if s in ("return 0", "return s", "return") or re.match(r"(var\s+s\b|s\s*:?=)", s):
+        return None         # where s comes from is a separate observation (OpBody.buffer)
     if s.startswith("memset("):
         if re.fullmatch(r"memset\(m, 0, sizeof\(\*m\)\)", s):
             return {"s": "memset"}
